@@ -399,10 +399,13 @@ def scan_lexicons(source: AnyPath) -> list[ScanInfo]:
     source = Path(source).expanduser()
     infos: list[ScanInfo] = []
 
-    lex_re = re.compile(b'<(Lexicon|LexiconExtension|Extends)\\b([^>]*)>', flags=re.M)
-    attr_re = re.compile(
-        b'''\\b(id|version|label)=("[^"]*"|'[^']*')''', flags=re.M
+    # an attribute is a name, '=', and a quoted value; the value may
+    # contain '>' or text that looks like another attribute
+    attr = b'''\\s+(?:[^\\s=<>/'"]+)\\s*=\\s*(?:"[^"]*"|'[^']*')'''
+    lex_re = re.compile(
+        b'<(Lexicon|LexiconExtension|Extends)((?:' + attr + b')*)\\s*/?>'
     )
+    attr_re = re.compile(attr.replace(b'(?:', b'('))
 
     # comments and CDATA sections may contain text that looks like tags
     ignore_re = re.compile(b'<!--.*?-->|<!\\[CDATA\\[.*?\\]\\]>', flags=re.S)
@@ -414,6 +417,7 @@ def scan_lexicons(source: AnyPath) -> list[ScanInfo]:
                 _m.group(1).decode("utf-8"):
                     _unescape_attribute(_m.group(2)[1:-1].decode("utf-8"))
                 for _m in attr_re.finditer(remainder)
+                if _m.group(1) in (b'id', b'version', b'label')
             }
             info: ScanInfo = {
                 "id": attrs["id"],
